@@ -168,6 +168,21 @@ def run_data(ctx, case):
                         ctx.fail('data|compressed|zlib.error|%s' % e['variant'], 'zlib.error escaped', case)
                 except Exception as ex:  # noqa
                     ctx.fail_exc('data|compressed|%s' % e['variant'], ex, case)
+    # containment of the real sections (compressed ones included: the rule speaks of the section as stored, sh_size) in the real segments
+    try:
+        for j, p in enumerate(R['ph']):
+            sg = ef.get_segment(j)
+            for i in range(1, len(R['sh'])):
+                if expect[i] is None or expect[i].get('variant', 'ok') != 'ok':
+                    continue
+                exp_in = REF.in_segment_strict(R['sh'][i], p, 64)
+                got_in = bool(sg.section_in_segment(ef.get_section(i)))
+                ctx.count('data.inseg.pairs')
+                if got_in != exp_in:
+                    ctx.fail('inseg|real-section|%s' % ('compressed' if R['sh'][i]['sh_flags'] & 0x800 else 'plain'), 'segment %d (type %#x, filesz %d) section %d (type %#x flags %#x offset %d sh_size %d): library %r, binutils rule %r' % (
+                        j, p['p_type'], p['p_filesz'], i, R['sh'][i]['sh_type'], R['sh'][i]['sh_flags'], R['sh'][i]['sh_offset'], R['sh'][i]['sh_size'], got_in, exp_in), case)
+    except Exception as ex:  # noqa
+        ctx.fail_exc('inseg|real-section', ex, case)
     # segments
     for j, p in enumerate(R['ph']):
         try:
